@@ -24,13 +24,14 @@ DELIVERY_LIMIT = 400  # watchdog: an endless body is cut here (the code under te
 class VirtualClock:
     """time module stand-in for mopidy.internal.http: returns the virtual time."""
 
-    def __init__(self, now=0):
+    def __init__(self, now=0, ticks_per_second=1):
         self.now = now
         self.reads = 0
+        self.tps = ticks_per_second
 
     def time(self):
         self.reads += 1
-        return float(self.now)
+        return self.now / self.tps if self.tps != 1 else float(self.now)
 
 
 class ChunkedResponse:
@@ -70,11 +71,12 @@ class ChunkedResponse:
             yield piece
 
 
-def deadline_respected(times, timeout_ms):
+def deadline_respected(times, timeout, unit=1000):
     """Property predicate on the real execution: every chunk but the last one pulled
-    arrived within the timeout (so at most one chunk is pulled after the deadline)."""
+    arrived within the timeout (so at most one chunk is pulled after the deadline).
+    unit: how many timeout units one clock unit is (ms timeout, clock in s: 1000)."""
     n = len(times) - 1
-    return n <= 1 or 1000 * (times[n - 1] - times[0]) <= timeout_ms
+    return n <= 1 or unit * (times[n - 1] - times[0]) <= timeout
 
 
 class Session:
@@ -156,7 +158,7 @@ HDR = (
     + "  let '(got, rok, cl, tmo, n, (ebody, ecount)) := c in\n"
     + "  if negb got then negb ebody && Nat.eqb ecount 0 else\n"
     + "  let more := match n with Some k => fun i => Nat.ltb i k | None => fun _ => true end in\n"
-    + "  let '(e, cnt) := chunks (dl_tab_clock cl) tmo more (S (length cl)) O in\n"
+    + "  let '(e, cnt) := chunks 1000 (dl_tab_clock cl) tmo more (S (length cl)) O in\n"
     + "  Nat.eqb cnt ecount && Bool.eqb ebody (match e with DlComplete => rok | _ => false end)\n"
     + "  && negb (match e with DlOutOfFuel => true | _ => false end).\n"
 )
